@@ -404,6 +404,8 @@ class Gen:
             return ("obox", self.pick(self.opaques).name, self.chance(0.5))
         if c < 0.56 and p["option"]:
             inner = self.simple_ret_payload(allow_box=False)
+            if self.chance(0.12):
+                inner = ("unit",)          # Option<()>: "did it work" returns
             if inner[0] == "struct" and self.find_struct(inner[1]).out and False:
                 pass
             sp = "dip" if (p["dip_spellings"] and self.chance(0.35)) else "std"
@@ -463,7 +465,7 @@ class Gen:
         if needs_a and not lifetimes:
             lifetimes = ["a"]
         # trailing write
-        if p["write"] and self.chance(0.18) and ret[0] in ("unit", "result") and (ret[0] == "unit" or ret[1] == ("unit",)):
+        if p["write"] and self.chance(0.18 if ret[0] != "opt" else 0.5) and ret[0] in ("unit", "result", "opt") and (ret[0] == "unit" or ret[1] == ("unit",)):
             params.append(("w", ("write",)))
         m = Method("m%d" % idx, sk, params, ret, lifetimes=lifetimes)
         m.owner = owner
